@@ -645,6 +645,67 @@ def tr_float_division_pins(which):
     return go
 
 
+def tr_get_binsize(tree):
+    """util.get_binsize: the loop over the per-chromosome groups and the final decision.  The two sets are lists kept
+    duplicate-free; the three decisions (`len(sizes) > 1`, `len(sizes) == 1`, `max(last_sizes) > binsize`) are
+    translated from the expressions the source has now; the statements that build the sets and the shape of the
+    control flow are pinned."""
+    f = find(tree, "get_binsize")
+    st = strip_doc(f.body)
+    if len(st) != 4:
+        raise Unsupported("get_binsize: statement count")
+    pin(st[0], "sizes = set()")
+    pin(st[1], "last_sizes = set()")
+    loop = st[2]
+    if not (isinstance(loop, ast.For) and not loop.orelse and ast.unparse(loop.target) == "(_chrom, group)"
+            and ast.unparse(loop.iter) == "bins.groupby('chrom', observed=True)" and len(loop.body) == 4):
+        raise Unsupported("get_binsize: loop header or body length")
+    pin(loop.body[0], "widths = group['end'] - group['start']")
+    pin(loop.body[1], "sizes.update(widths.iloc[:-1].unique())")
+    pin(loop.body[2], "last_sizes.add(widths.iloc[-1])")
+    ex = loop.body[3]
+    if not (isinstance(ex, ast.If) and not ex.orelse and len(ex.body) == 1 and ast.unparse(ex.body[0]) == "return None"):
+        raise Unsupported("get_binsize: early exit")
+    fin = st[3]
+    if not (isinstance(fin, ast.If) and len(fin.orelse) == 1 and ast.unparse(fin.orelse[0]) == "return None"
+            and len(fin.body) == 3):
+        raise Unsupported("get_binsize: final decision shape")
+    pin(fin.body[0], "binsize = next(iter(sizes))")
+    longer = fin.body[1]
+    if not (isinstance(longer, ast.If) and not longer.orelse and len(longer.body) == 1
+            and ast.unparse(longer.body[0]) == "return None"):
+        raise Unsupported("get_binsize: last-bin test shape")
+    pin(fin.body[2], "return binsize")
+    fn = Fn(calls={"len": ("zlen", ["x"], {}), "max": ("zmax_list", ["x"], {})}, may_raise=False)
+    return "\n".join([
+        "Definition zlen (l : list Z) : Z := Z.of_nat (length l).",
+        "Definition zmax_list (l : list Z) : Z := fold_right Z.max (hd 0 l) l.",
+        "(* set.update / set.add on a duplicate-free list *)",
+        "Definition set_update (s xs : list Z) : list Z := nodup Z.eq_dec (s ++ xs).",
+        f"Definition gb_early_exit (sizes : list Z) : bool := {fn.expr(ex.test)}.",
+        f"Definition gb_single (sizes : list Z) : bool := {fn.expr(fin.test)}.",
+        f"Definition gb_last_longer (last_sizes : list Z) (binsize : Z) : bool := {fn.expr(longer.test)}.",
+        "(* one `widths` list per observed chromosome; None = the early `return None` *)",
+        "Fixpoint gb_loop (groups : list (list Z)) (sizes last_sizes : list Z) : option (list Z * list Z) :=",
+        "  match groups with",
+        "  | [] => Some (sizes, last_sizes)",
+        "  | widths :: rest =>",
+        "      let sizes := set_update sizes (removelast widths) in",
+        "      let last_sizes := set_update last_sizes [last widths 0] in",
+        "      if gb_early_exit sizes then None else gb_loop rest sizes last_sizes",
+        "  end.",
+        "Definition get_binsize (groups : list (list Z)) : option Z :=",
+        "  match gb_loop groups [] [] with",
+        "  | None => None",
+        "  | Some (sizes, last_sizes) =>",
+        "      if gb_single sizes then",
+        "        let binsize := hd 0 sizes in",
+        "        if gb_last_longer last_sizes binsize then None else Some binsize",
+        "      else None",
+        "  end.",
+        "Definition get_binsize_source_pins : bool := true."])
+
+
 ITEMS = [
     ("core/_rangequery.py", "comes_before", lambda t: tr_cmp(t, "_comes_before", "comes_before")),
     ("core/_rangequery.py", "contains", lambda t: tr_cmp(t, "_contains", "contains")),
@@ -663,6 +724,7 @@ ITEMS = [
     ("core/_rangequery.py", "float_division_pins_extent", tr_float_division_pins("extent")),
     ("util.py", "float_division_pins_binnify", tr_float_division_pins("binnify")),
     ("_reduce.py", "float_division_pins_coarsen", tr_float_division_pins("coarsen")),
+    ("util.py", "get_binsize", tr_get_binsize),
 ]
 
 
